@@ -241,8 +241,10 @@ def run_fault(case, ctx):
     if r["status"] == "ok":
         res = r["result"]
         po.Findings.replay(res, ctx)
-        if (res.get("delivered") is not None and res["delivered"] != sorted(f["inst"] for f in case["faults"]) and not res["findings"]
-                and not case.get("pending")):  # with a pending call close() may legitimately win the race against the fault
+        # The generator's own sanity guard: a case in which NO injected fault reached its sub-environment tested nothing.
+        # (With two faults the caller may legitimately stop at the first failure and close() the others before their fault
+        # fires; with a pending call close() may win the race.  Those are not harness faults.)
+        if (res.get("delivered") is not None and not res["delivered"] and not res["findings"] and not case.get("pending")):
             raise HarnessError(f"fault was not delivered: case={case} delivered={res['delivered']}")
         if r["leftover"]:
             ctx.label("processes-left-at-case-end(reaped)")
